@@ -376,6 +376,76 @@ mod pbt {
         }
     }
 
+    /// enumerated sub-check: a finite list of cases, each through the same kind of pure
+    /// check function (no shrinking: enumerated cases are already minimal)
+    pub struct ESub<C> {
+        pub name: String,
+        pub cases: Box<dyn Fn() -> Vec<C> + Send + Sync>,
+        pub check: Box<dyn Fn(&C) -> CheckResult + Send + Sync>,
+        pub weight: u64,
+    }
+
+    impl<C> ESub<C>
+    where
+        C: Serialize + DeserializeOwned + std::fmt::Debug + Clone + Send + Sync + 'static,
+    {
+        pub fn boxed(
+            name: impl Into<String>,
+            weight: u64,
+            cases: impl Fn() -> Vec<C> + Send + Sync + 'static,
+            check: impl Fn(&C) -> CheckResult + Send + Sync + 'static,
+        ) -> Box<dyn SubCheck> {
+            Box::new(ESub { name: name.into(), cases: Box::new(cases), check: Box::new(check), weight })
+        }
+    }
+
+    impl<C> SubCheck for ESub<C>
+    where
+        C: Serialize + DeserializeOwned + std::fmt::Debug + Clone + Send + Sync + 'static,
+    {
+        fn name(&self) -> String {
+            self.name.clone()
+        }
+        fn weight(&self) -> u64 {
+            self.weight
+        }
+        fn run(&self, ctx: &Ctx, property: &str) -> SubResult {
+            let t0 = std::time::Instant::now();
+            let mut out = SubResult::new(&self.name);
+            let known: Vec<&KnownFinding> = ctx.known.iter().filter(|k| k.property == property).collect();
+            for case in (self.cases)() {
+                match guarded(&*self.check, &case) {
+                    Ok(info) => out.record(&case, &info),
+                    Err(f) => {
+                        out.evaluations += 1;
+                        if let Some(k) = known.iter().find(|k| k.signature == f.signature) {
+                            *out.known_hits.entry(k.signature.clone()).or_insert(0) += 1;
+                            continue;
+                        }
+                        if f.inconclusive {
+                            out.inconclusive = Some(format!("{}: {}", f.signature, f.msg));
+                        } else {
+                            out.violation = Some(Violation {
+                                property: property.to_string(),
+                                subcheck: self.name.clone(),
+                                case: serde_json::to_value(&case).unwrap_or(Value::Null),
+                                fail: f,
+                            });
+                        }
+                        break;
+                    }
+                }
+            }
+            out.extra.insert("enumerated".into(), json!(true));
+            out.wall_s = t0.elapsed().as_secs_f64();
+            out
+        }
+        fn replay(&self, _ctx: &Ctx, case: &Value) -> Result<CheckResult, String> {
+            let c: C = serde_json::from_value(case.clone()).map_err(|e| format!("cannot decode case: {}", e))?;
+            Ok(guarded(&*self.check, &c))
+        }
+    }
+
     /// Run all sub-checks of a property on all cores; deterministic merge order.
     pub fn run_all(ctx: &Ctx, property: &str, subs: Vec<Box<dyn SubCheck>>) -> Vec<SubResult> {
         use rayon::prelude::*;
